@@ -222,6 +222,9 @@ package store
 //@ iface (repo Repo) blobDelete(d digest.Digest, locked bool) (err error)
 //@   modifies ghost(fault), ghost(mutations), alloc, ghost(fswrites), Repo.blobs
 //@   ensures [fs-policy]{C14} !fsWritable() ==> fswrites() == old(fswrites())
+//@   -- a delete that reports success has removed that blob, and no delete touches another blob
+//@   ensures [gone] err == nil ==> !(d in repo.blobs)
+//@   ensures [others-kept] forall x: digest.Digest :: x != d ==> ((x in repo.blobs) <==> old(x in repo.blobs))
 
 //@ -- options are applied to the structure they are given and nothing else
 //@ callback BlobOpt(bc *blobConfig) (err error)
@@ -439,6 +442,8 @@ package store
 //@ -- response whose subject has a blob is either kept as a root or recorded in `subjects` under that subject - from where
 //@ -- the mark loop takes it when the subject turns out to be retained (referrers-settled and its siblings)
 //@ ghost func gcHasBlob(d digest.Digest) bool
+//@ -- gcDeleteRefused(x): the store answered the collector's blobDelete(x) with an error (the collector carries on)
+//@ ghost func gcDeleteRefused(d digest.Digest) bool
 //@ pred subjDig(e) := digestOK(types.subjOf(e)) ? types.subjOf(e) : ""
 //@ pred tracked(sj, W, e) := queued(W, e.Digest, mtKind(e.MediaType)) ||
 //@        ((subjDig(e) in sj) && sj[subjDig(e)].Digest == e.Digest && mtKind(sj[subjDig(e)].MediaType) == mtKind(e.MediaType)) ||
@@ -457,11 +462,20 @@ package store
 //@   loop 2,3,4,5,6: invariant [recorded]{C06} inIndex != nil && forall k: int :: 0 <= k && k < len(index.Manifests) ==> inIndex[index.Manifests[k].Digest]
 //@   loop 1,2,3,4,5,6: invariant [index-wf]{C18,C06} types.wfIndex(index)
 //@   loop 5: invariant [listed-digests-valid]{C06} forall k: int :: 0 <= k && k < len(dl) ==> digestOK(dl[k])
+//@   -- C06, one pass removes the garbage: every listed blob that is neither marked nor a recent upload outside the index has
+//@   -- been handed to blobDelete - it is gone, or the store refused (the collector ignores that and the next pass tries again)
+//@   loop 5: invariant [garbage-swept]{C06} forall k: int :: 0 <= k && k <= rangeindex && k < len(dl) && !seen[dl[k]] &&
+//@             !(conf.Storage.GC.GracePeriod >= 0 && gcRecent(dl[k]) && !inIndex[dl[k]]) ==> !(dl[k] in repo.blobs) || gcDeleteRefused(dl[k])
+//@   loop 6: invariant [garbage-swept]{C06} forall k: int :: 0 <= k && k < len(dl) && !seen[dl[k]] &&
+//@             !(conf.Storage.GC.GracePeriod >= 0 && gcRecent(dl[k]) && !inIndex[dl[k]]) ==> !(dl[k] in repo.blobs) || gcDeleteRefused(dl[k])
+//@   ensures [garbage-swept]{C06} err == nil ==> forall k: int :: 0 <= k && k < len(dl) && !seen[dl[k]] &&
+//@             !(conf.Storage.GC.GracePeriod >= 0 && gcRecent(dl[k]) && !inIndex[dl[k]]) ==> !(dl[k] in repo.blobs) || gcDeleteRefused(dl[k])
 //@   loop 6: invariant [visited-have-blobs]{C06} forall k: int :: 0 <= k && k < len(index.Manifests) && visited[index.Manifests[k].Digest] && index.Manifests[k].Digest != "" ==> blobExists[index.Manifests[k].Digest]
 //@   ensures [no-entry-without-blob]{C06} err == nil ==> forall k: int :: 0 <= k && k < len(out.Manifests) && out.Manifests[k].Digest != "" ==> blobExists[out.Manifests[k].Digest]
 //@   assume [recent-is-stable-1] after "repo.blobMeta(d.Digest, locked)"#1: (ret1 == nil && ret0.mod > cutoff) <==> gcRecent(d.Digest)
 //@   assume [recent-is-stable-2] after "repo.blobMeta(d, locked)": (ret1 == nil && ret0.mod > cutoff) <==> gcRecent(d#3)
 //@   assume [has-blob-is-stable] after "repo.blobMeta(dig, locked)": (ret1 == nil) <==> gcHasBlob(dig)
+//@   assume [delete-outcome] after "blobDelete(d, locked)": (ret != nil) <==> gcDeleteRefused(d#3)
 //@   assume [readable-is-stable] after "repo.blobGet(d.Digest, locked)": (ret1 == nil) <==> gcReadable(d#2.Digest)
 //@   assume [index-decoded-once] after "Decode(&man)"#1: ret == nil && br != nil && br.of == d#2.Digest ==> len(man.Manifests) == gcIdxN(d#2.Digest) &&
 //@             (forall k: int :: 0 <= k && k < len(man.Manifests) ==> man.Manifests[k].Digest == gcIdxChild(d#2.Digest, k) &&
